@@ -137,6 +137,9 @@ func (comp) Gen(prop string, rng *rand.Rand, tier string) *core.History {
 		nkeys = 6 // ... except in one history out of six: the empty value
 	}
 	keys := core.WithLongKeys(rng, allKeys[:nkeys], 10)
+	if core.Chance(rng, 1, 8) {
+		keys = append([][]byte{{}}, keys[1:]...) // the empty key: legal for the LRU tier and for every persister
+	}
 	setConfig(h, capacity, maxBytes, keys)
 	sizes := []int64{0, 10, 40, 40, 90, 150}
 	if core.Chance(rng, 1, 12) {
